@@ -371,7 +371,13 @@ def to_vector(c):
     if c is None or c is False:
         return c
     if hasattr(c, vector):
-        return c
+        # a labelled vector (or one vector per illumination channel) is
+        # normalized like any other polarization; one that already has unit
+        # length is handed on unchanged, so that to_vector stays idempotent
+        norm = np.sqrt((c**2).sum(vector))
+        if (np.abs(norm - 1) < 1e-12).all():
+            return c
+        return c / norm
     if isinstance(c, dict):
         c = c.copy()
         for key, val in c.items():
